@@ -206,16 +206,19 @@ PLANS["C09"] = {
     "bounds": {"all": ["none: all usize pairs"]},
     "explanation": "Thin partial claim: check_partial_index(i, n, _) is Err iff i >= n for all usize pairs (complete, loop-free).",
 }
+C07_SLOW_PREFIXES = [(0, 4), (0, 5), (0, 6), (1, 4), (1, 5), (1, 6), (3, 4), (3, 5), (3, 6), (4, 5), (6, 5)]
+C07_LEN3 = ["c07::l3_%d%d" % (a, b) for a in range(7) for b in range(7) if (a, b) not in C07_SLOW_PREFIXES]
 PLANS["C07"] = {
     "level": "model_checking",
-    "kani": {"quick": ["c07::preconditions_len_0", "c07::preconditions_len_1", "c07::preconditions_len_2"] + ["c07::l3_%d%d" % (a, b) for a in range(7) for b in range(7)],
-             "thorough": ["c07::preconditions_len_0", "c07::preconditions_len_1", "c07::preconditions_len_2"] + ["c07::l3_%d%d" % (a, b) for a in range(7) for b in range(7)]},
-    "native_probes": {"quick": [("c07::preconditions_len_8", 300000)], "thorough": [("c07::preconditions_len_8", 3000000)]},
+    "kani": {"quick": ["c07::preconditions_len_0", "c07::preconditions_len_1", "c07::preconditions_len_2"] + C07_LEN3,
+             "thorough": ["c07::preconditions_len_0", "c07::preconditions_len_1", "c07::preconditions_len_2"] + C07_LEN3},
+    "native_probes": {"quick": [("c07::preconditions_len_3", 100000), ("c07::preconditions_len_8", 300000)],
+                      "thorough": [("c07::preconditions_len_3", 1000000), ("c07::preconditions_len_8", 3000000)]},
     "kani_timeout": {"quick": 900, "thorough": 3000},
     "owns_unprefixed": True,
     "trusted_base": [A_CBMC, A_FMT, A_NOOVF], "assumptions": [A_CBMC, A_FMT, A_NOOVF],
     "not_covered": ["operand/operator count check (make_expression, DeepEx::new)", "unknown-character rejection (tokenizer)", "token sequences longer than the bound"],
-    "bounds": {"quick": ["all token sequences of length 0, 1, 2 and 3 over 7 token kinds (length 3: 49 harnesses fixing the first two kinds)", "sampled native probe (not a proof): 300000 random sequences of 8 tokens"],
+    "bounds": {"quick": ["all token sequences of length 0, 1, 2 and 3 over 7 token kinds (length 3: 38 of the 49 two-token prefixes, each with a symbolic third token; the 11 prefixes with a legally placed operator in the middle do not finish in 15 min and are only sampled natively)", "sampled native probe (not a proof): 300000 random sequences of 8 tokens"],
                "thorough": ["as quick (length 4 was tried: most of the 343 harnesses with three fixed kinds take 3-19 s, a few do not finish in 10 min); the sampled probe runs 3000000 sequences"]},
     "explanation": "Partial, bounded: check_parsed_token_preconditions rejects exactly the documented malformed shapes for every short token sequence.",
 }
